@@ -1701,6 +1701,76 @@ func min(a, b int) int {
 	return b
 }
 
+// titledRestoreRounds: a directed concurrent scenario on the file store WITH a titled successor.
+// Goroutine A pushes a manifest M under the name "dir/f2.bin" whose layer entry is titled "f1.txt";
+// goroutine B pushes M again under the same name and, once that is refused with duplicate-name
+// (M's store step is over), pushes the layer.  Push = store ; graph.Index ; restoreDuplicates:
+// when A's restore step runs after B's layer push, "f1.txt" is created -- a quiescent state no
+// sequential order of the three operations reaches (whichever manifest push comes first is
+// stored while the layer is absent; the other one is refused and restores nothing).
+func titledRestoreRounds(h histSpec) {
+	hh := h
+	inFlight.Store(&hh)
+	r := common.NewRand(h.HSeed)
+	for round := 0; round < h.NOps; round++ {
+		progress()
+		layer := []byte(fmt.Sprintf("layer-%d-%d", h.HSeed, r.Intn(1<<30)))
+		ld := ocispec.Descriptor{MediaType: ocispec.MediaTypeImageLayer, Digest: digest.FromBytes(layer), Size: int64(len(layer))}
+		titled := ld
+		titled.Annotations = map[string]string{ocispec.AnnotationTitle: "f1.txt"}
+		cfg := []byte("{}")
+		cd := ocispec.Descriptor{MediaType: ocispec.MediaTypeImageConfig, Digest: digest.FromBytes(cfg), Size: int64(len(cfg))}
+		mb, _ := json.Marshal(ocispec.Manifest{MediaType: ocispec.MediaTypeImageManifest, Config: cd, Layers: []ocispec.Descriptor{titled}})
+		md := ocispec.Descriptor{MediaType: ocispec.MediaTypeImageManifest, Digest: digest.FromBytes(mb), Size: int64(len(mb)),
+			Annotations: map[string]string{ocispec.AnnotationTitle: "dir/f2.bin"}}
+		md2 := md
+		md2.Annotations = map[string]string{ocispec.AnnotationTitle: "dir/f2.bin", "x": "y"}
+		t, cleanup := newStore("file00")
+		var errA, errB1, errB2 error
+		pushedLayer := false
+		var wg sync.WaitGroup
+		start := make(chan struct{})
+		wg.Add(2)
+		go func() {
+			defer wg.Done()
+			defer progress()
+			<-start
+			errA = t.Push(ctx, md, bytes.NewReader(mb))
+		}()
+		go func() {
+			defer wg.Done()
+			defer progress()
+			<-start
+			for i := 0; i < 1000; i++ {
+				errB1 = t.Push(ctx, md2, bytes.NewReader(mb))
+				if errB1 == nil || errors.Is(errB1, file.ErrDuplicateName) {
+					break
+				}
+			}
+			if errors.Is(errB1, file.ErrDuplicateName) {
+				errB2 = t.Push(ctx, ld, bytes.NewReader(layer))
+				pushedLayer = true
+			}
+		}()
+		close(start)
+		wg.Wait()
+		restored, _ := t.Exists(ctx, titled)
+		run.Count("file00/titled-restore-round")
+		if errA == nil && pushedLayer && errB2 == nil {
+			run.Count("file00/titled-restore-round/A-first")
+			if restored {
+				id := run.NewID()
+				run.OracleFail(id, "file-conc-titled-restore-not-serialisable",
+					fmt.Sprintf("store=file00 concurrent: Push(manifest as dir/f2.bin) => nil || Push(same manifest as dir/f2.bin) => duplicate name ; Push(layer) => nil : at quiescence the layer's title f1.txt exists (restored by the first push from the layer pushed after it was stored) -- no sequential order of the three pushes creates it"),
+					map[string]any{"store": "file00", "mode": "titledrace", "hseed": h.HSeed, "nops": 4000, "threads": 2})
+				cleanup()
+				return // once per call
+			}
+		}
+		cleanup()
+	}
+}
+
 func main() {
 	run = common.Start("C06")
 	defer run.Finish()
@@ -1717,7 +1787,9 @@ func main() {
 			if h.Kind == "" || h.NOps == 0 {
 				continue
 			}
-			if h.Mode == "race" {
+			if h.Mode == "titledrace" {
+				titledRestoreRounds(h)
+			} else if h.Mode == "race" {
 				if h.Thr == 0 {
 					h.Thr = 2
 				}
@@ -1758,6 +1830,9 @@ func main() {
 			concHistory(histSpec{Kind: kind, Mode: "conc", HSeed: run.Rand.U64() >> 12, NOps: 6 + run.Rand.Intn(6), Thr: thr})
 		}
 	}
+	for i := 0; i < run.Scale(4, 20); i++ {
+		titledRestoreRounds(histSpec{Kind: "file00", Mode: "titledrace", HSeed: run.Rand.U64() >> 12, NOps: 150, Thr: 2})
+	}
 	// coverage floors: a run in which a stream or a pattern the check relies on did not occur is a
 	// failure of the run (layer R), not a silent pass
 	floors := map[string]int{
@@ -1766,7 +1841,7 @@ func main() {
 		"oci/AutoSaveIndex=false": 20, "oci/AutoSaveIndex=true": 20,
 		"file/pattern/restore-fails-traversal": 3, "file/alias-tainted-histories": 5,
 		"race-mem/successes=1": 20, "race-file00/successes=1": 20, "conc-mem/P": 50, "conc-oci/P": 50, "conc-file00/P": 50,
-		"oci/disk-compared": 100, "file00/disk-compared": 100, "file01/disk-compared": 100,
+		"file00/titled-restore-round": 4, "oci/disk-compared": 100, "file00/disk-compared": 100, "file01/disk-compared": 100,
 		"conc-mem/F": 50, "conc-oci/F": 50, "conc-oci/E": 5, "conc-oci/R": 50, "conc-file00/F": 30, "conc-file00/R": 50,
 		"mem/R/D": 50, "oci/R/D": 50, "file00/R/D": 20,
 	}
